@@ -154,7 +154,14 @@ static void runHistory(const Job& j) {
 				std::string ser;
 				try { ser = a.ip.serialize(); } catch (Event e) { *out << "SERTHROW " << oneline(e.name) << "\n"; break; }
 				*out << "SER " << oneline(ser) << "\n";
-				make(b, j, "B ");
+				if (j.flag("foreign")) {
+					// negative oracle: a state string must not be accepted by an interpreter for a different document
+					Job j2 = j; size_t pos = j2.xml.rfind("</scxml>");
+					if (pos != std::string::npos) j2.xml.insert(pos, "<!-- another document -->");
+					make(b, j2, "B ");
+				} else {
+					make(b, j, "B ");
+				}
 				try { b.ip.deserialize(ser); } catch (Event e) { *out << "DESERTHROW " << oneline(e.name) << " " << oneline(e.data.asJSON()) << "\n"; break; }
 				resumed = true; evB = ev;
 				*out << "B RESUMED " << b.mon.cfg() << "\n";
@@ -162,6 +169,10 @@ static void runHistory(const Job& j) {
 		}
 	}
 	if (guard >= j.maxsteps) *out << "STEPCAP\n";
+	if (j.flag("drain")) {
+		// wait for pending delayed events: blocking steps until the machine stayed idle for a whole period
+		for (int k = 0; k < 12 && st != USCXML_FINISHED; k++) { st = a.ip.step(1500); *out << "R " << st << "\n"; if (st == USCXML_IDLE) break; }
+	}
 	dumpEnd(a, j);
 	if (resumed) {
 		// drive the resumed interpreter with the same continuation
@@ -177,6 +188,9 @@ static void runHistory(const Job& j) {
 			}
 		}
 		if (guard >= j.maxsteps) *out << "B STEPCAP\n";
+		if (j.flag("drain")) {
+			for (int k = 0; k < 12 && st != USCXML_FINISHED; k++) { st = b.ip.step(1500); *out << "B R " << st << "\n"; if (st == USCXML_IDLE) break; }
+		}
 		dumpEnd(b, j);
 		pfx = "";
 	}
